@@ -9,7 +9,7 @@
    [enc] is the output charset, universally quantified (bk_enc in the runs). *)
 From Coq Require Import ZArith List String Ascii Bool NArith.
 From Verif Require Import Base.Res Spec.PDP11 Spec.Arith Spec.DataSpec Model.Insns Model.Directives Model.Asm Model.AsmT Model.AsmRel
-  Proofs.InsnsMain Proofs.AsmP Proofs.AsmSem Proofs.AsmTotal Proofs.AsmSized Proofs.AsmMeta Proofs.AsmLaws Proofs.AsmMove Proofs.AsmSup Proofs.AsmRelP Proofs.AsmLawSound Proofs.AsmLink.
+  Proofs.InsnsMain Proofs.AsmP Proofs.AsmSem Proofs.AsmTotal Proofs.AsmSized Proofs.AsmMeta Proofs.AsmLaws Proofs.AsmMove Proofs.AsmSup Proofs.AsmRelP Proofs.AsmLawSound Proofs.AsmLink Proofs.AsmReloc.
 From Verif Require Model.Rad50.
 Import ListNotations.
 Notation length := Datatypes.length.
@@ -222,6 +222,38 @@ Theorem R_link_is_concat : forall enc f1 rest f, assemble_full enc (link f1 rest
 Proof. exact link_is_concat. Qed.
 Print Assumptions R_link_is_concat.
 
+(* ---- relocation (C09 on whole programs) ------------------------------------------------------------------------
+   [at_base b rest] is `.link b` followed by rest.  Class [reloc_ok rest] (Model/AsmT.v): labels, instructions whose
+   operand expressions are literals -- except immediates / absolutes, which may be a bare label, and relative operands
+   / branch targets, which are a bare label --, .byte/.dword/fills/strings with literals, .word and word lists of
+   literals and bare labels, .even/.odd, insert_file; no definitions, repeats, includes, `. =`, .align.
+   R_relocation_partial: if the program assembles at b and at b + d (d even, both bases 16-bit), then the two results
+   have the bases b and b + d, the same statements at addresses moved by d with the same sizes, every label moved by
+   d, chunk by chunk the same number of bytes (images of the same length).  R_relocation_values: under the moved
+   table a literal expression has the same value and a bare label the value moved by d, wherever it is evaluated;
+   with R_insn_decodes / R_data_exact at the two bases (which give the bytes from exactly these values) that is the
+   C09 law: relative operands and branch fields identical, immediates / absolutes / .word of a label moved by d.
+   Partial: the byte-level statement "the images are equal except in those words, which differ by d mod 2^16" is
+   not derived in Coq; it is judged in coqc on the model's and on the real images (Run/RRun.judge_reloc). *)
+Theorem R_relocation_partial : forall enc b d rest f f',
+  reloc_ok rest = true -> d mod 2 = 0 -> 0 <= b < 65536 -> 0 <= b + d < 65536 ->
+  assemble_full enc (at_base b rest) = XOk f -> assemble_full enc (at_base (b + d) rest) = XOk f' ->
+  f_base f = b /\ f_base f' = b + d /\
+  (exists it0 it0' tl tl', f_items f = it0 :: tl /\ f_items f' = it0' :: tl' /\ i_size it0 = 0 /\ i_size it0' = 0 /\
+                           Forall2 (item_shift d) tl tl') /\
+  f_syms f' = shiftT d (f_syms f) /\
+  Forall2 (fun c c' : list Z => length c = length c') (f_chunks f) (f_chunks f') /\
+  length (concat (f_chunks f)) = length (concat (f_chunks f')).
+Proof. exact reloc_layout. Qed.
+Print Assumptions R_relocation_partial.
+
+Theorem R_relocation_values : forall enc d T c a a' e, re_abs e = true ->
+  (closed e = true -> fev enc [] (shiftT d T) c a' e = fev enc [] T c a e) /\
+  (is_sym e = true -> fev enc [] (shiftT d T) c a' e =
+                      match fev enc [] T c a e with XOk v => XOk (v + d) | r => r end).
+Proof. exact reloc_values. Qed.
+Print Assumptions R_relocation_values.
+
 (* ---- counts through later labels whose dependence on unknown sizes cancels (Model/AsmRel.v) ----------------
    assemble_rel rewrites such .repeat counts -- and a link base spelled through labels, `.link 1000 + e - s`, where
    the base itself is one more unknown that has to cancel -- to literals (constants over address polynomials, Model/Poly.v) and
@@ -344,6 +376,21 @@ Example R_example_link :
                         [(1%nat, [Link (num 1024); Assign "x" (num 2); Label "y"; Extern ["y"]; Byte [Sym "x"]])]) =
   XOk (1024, [1; 0; 4; 4; 2], [(KGlobal 1 "y", 1028); (KGlobal 0 "x", 1); (KGlobal 1 "x", 2)]).
 Proof. vm_compute. reflexivity. Qed.
+
+(* a program of the class at two bases: the opcode words, the relative operand and the branch are the same; the
+   immediate, the absolute and the .word of a label moved by 512 *)
+Definition ex_reloc : program :=
+  [ Label "s"; Insn "mov" [AImm (Sym "m"); AReg (num 0)]; Insn "mov" [ARel (Sym "m"); AAbs (Sym "m")];
+    LocalLabel "1"; Insn "dec" [AReg (num 0)]; Insn "bne" [ARel (Sym "1")]; Label "m"; Word [Sym "s"; num 7] ].
+Example R_example_reloc :
+  reloc_ok ex_reloc = true /\
+  assemble bk_enc (at_base 512 ex_reloc) =
+    XOk (512, [192; 21; 14; 2; 223; 29; 6; 0; 14; 2; 192; 10; 254; 2; 0; 2; 7; 0],
+         [(KGlobal 0 "m", 526); (KLocal 0 1 "1", 522); (KGlobal 0 "s", 512)]) /\
+  assemble bk_enc (at_base 1024 ex_reloc) =
+    XOk (1024, [192; 21; 14; 4; 223; 29; 6; 0; 14; 4; 192; 10; 254; 2; 0; 4; 7; 0],
+         [(KGlobal 0 "m", 1038); (KLocal 0 1 "1", 1034); (KGlobal 0 "s", 1024)]).
+Proof. vm_compute. repeat split; reflexivity. Qed.
 
 (* refusals are results, not crashes: a cycle, a branch out of reach, a count through a later label *)
 Example R_example_refusals :
